@@ -28,6 +28,18 @@ CLAIMED = {
              "1-5, fractional origins) is outside the model and only measured (intensity, centroid).",
         technique="Lean 4 proof (omega over Int/Nat index maps) + differential correspondence model↔code",
         design="§3 C12"),
+    "C05": dict(
+        text="Lean 4 theorems over the Transform quadrant pipeline model (any shape, any shape-preserving half-image "
+             "transform T): output shape = input shape; explicit pixel formula (which transformed quadrant, which "
+             "local position; centre column from the right-hand, centre row from the lower quadrants); quadrants "
+             "left as None are never read; dr routing. Tied to abel/transform.py by a bit-exact run of abel.Transform "
+             "with a stub method patched in (all axis forms x masks x shapes), plus real-method assembly, option "
+             "routing, int-vs-float and linbasex/rbasex pass-through oracles.",
+        note="Trusted: Lean kernel + standard axioms; hand model faithful as far as the stub correspondence explores; "
+             "centring inside Transform is compared with center_image itself (decided by C12); automatic origin "
+             "finders are exercised, their correctness is C13.",
+        technique="Lean 4 proof (index arithmetic) + differential correspondence with stubbed method",
+        design="§3 C05"),
 }
 
 NOT_YET = "check not built yet in this session (planned, see DESIGN.md §3); not claimed until its theorems and correspondence run"
